@@ -14,6 +14,8 @@ import (
 	"sort"
 	"strconv"
 	"strings"
+	"sync/atomic"
+	"time"
 	"unicode"
 	"unicode/utf8"
 
@@ -127,6 +129,7 @@ type parseOut struct {
 	line     int
 	cited    string
 	panicked bool
+	hung     bool
 	errText  string
 }
 
@@ -166,7 +169,32 @@ func classify(err error) parseOut {
 	return po
 }
 
-func doParse(isObj bool, s string) (po parseOut) {
+// doParse runs the parser under a watchdog: a call that does not come back within the limit is reported as a failure of
+// totality (the goroutine is abandoned; after three such inputs no further input is parsed, so that the run itself terminates)
+var parseHangs int32
+
+func doParse(isObj bool, s string) parseOut {
+	return watchParse(func() parseOut { return doParseNow(isObj, s) })
+}
+
+func watchParse(f func() parseOut) parseOut {
+	if atomic.LoadInt32(&parseHangs) >= 3 {
+		return parseOut{panicked: true, class: "other", errText: "not parsed: three earlier inputs made the parser hang"}
+	}
+	ch := make(chan parseOut, 1)
+	go func() { ch <- f() }()
+	select {
+	case po := <-ch:
+		return po
+	case <-time.After(parseLimit):
+		atomic.AddInt32(&parseHangs, 1)
+		return parseOut{panicked: true, hung: true, class: "other", errText: fmt.Sprintf("the parser did not return within %v", parseLimit)}
+	}
+}
+
+var parseLimit = 4 * time.Second
+
+func doParseNow(isObj bool, s string) (po parseOut) {
 	defer func() {
 		if r := recover(); r != nil {
 			po = parseOut{panicked: true, class: "other", errText: fmt.Sprint(r)}
@@ -592,6 +620,7 @@ func (v *V) classTags() []string {
 func genTreeProp(prop string) genFunc {
 	return func(r *R, n int, tier string, out *Out) {
 		o := validTreeOpts()
+		o.Stress = true
 		for i := 0; i < n; i++ {
 			var v *V
 			switch {
@@ -793,7 +822,7 @@ func genC03(r *R, n int, tier string, out *Out) {
 var illFormed = []string{"\x80", "\xbf", "\xc0\x80", "\xc1\xbf", "\xe0\x80\x80", "\xe0\x9f\xbf", "\xed\xa0\x80", "\xed\xbf\xbf", "\xf0\x80\x80\x80", "\xf4\x90\x80\x80",
 	"\xf5\x80\x80\x80", "\xff", "\xfe", "\xe2\x82", "\xc3", "\xf0\x9f\x98", "\xe2"}
 
-var garbageAlphabet = []string{"[", "]", "{", "}", "\"", "\\", ",", ":", "0", "1", "9", "-", ".", "e", "t", "r", "u", "f", "a", "l", "s", "n", " ", "\n", "\t", "x", "\xc3\xa9", "\x80", "/", "_", "+", "E"}
+var garbageAlphabet = []string{"[", "]", "{", "}", "\"", "\\", ",", ":", "0", "1", "9", "-", ".", "e", "t", "r", "u", "f", "a", "l", "s", "n", " ", "\n", "\t", "x", "\xc3\xa9", "\x80", "/", "_", "+", "E", "\f", "\v", "\u0085", "\u00a0", "\u2028", "\u3000", "\r"}
 
 func genC04(r *R, n int, tier string, out *Out) {
 	o := validTreeOpts()
@@ -810,7 +839,7 @@ func genC04(r *R, n int, tier string, out *Out) {
 			v = r.listTree(o)
 		}
 		s := stringOf(v.toAny())
-		switch r.Intn(6) {
+		switch r.Intn(7) {
 		case 0: // every kind of cut: proper prefixes of a serialised document (several cut points per document)
 			for k := 0; k < 6 && i < n; k++ {
 				if len(s) < 2 {
@@ -924,6 +953,44 @@ func genC04(r *R, n int, tier string, out *Out) {
 				out.emit(textCase("C04", isObj, dam, &failer{pred: true}, []string{"escape-damaged"}, nil))
 				i++
 			}
+		case 5: // a blank of any kind (JSON's four, the other unicode.IsSpace characters, look-alikes that are no blanks) at structural positions
+			var doc string
+			if isObj {
+				doc = r.jsonObject(3)
+			} else {
+				doc = r.jsonArray(3)
+			}
+			var pos []int
+			inStr, esc := false, false
+			for j := 0; j < len(doc); j++ {
+				c := doc[j]
+				if inStr {
+					if esc {
+						esc = false
+					} else if c == '\\' {
+						esc = true
+					} else if c == '"' {
+						inStr = false
+						pos = append(pos, j+1)
+					}
+					continue
+				}
+				switch c {
+				case '"':
+					inStr = true
+					pos = append(pos, j)
+				case '{', '[', ',', ':':
+					pos = append(pos, j+1)
+				case '}', ']':
+					pos = append(pos, j, j+1)
+				}
+			}
+			for k := 0; k < 4 && i < n && len(pos) > 0; k++ {
+				at0 := pickOf(r, pos)
+				blank := pickOf(r, []string{"\f", "\v", "\u0085", "\u00a0", "\u1680", "\u2003", "\u2028", "\u2029", "\u202f", "\u3000", "\ufeff", "\u200b", " ", "\t", "\r", "\n", "\f\f", "\u00a0 "})
+				out.emit(textCase("C04", isObj, doc[:at0]+blank+doc[at0:], &failer{pred: true}, []string{"blank-inserted"}, nil))
+				i++
+			}
 		default: // ParseFile: same as ParseObject on the bytes; unreadable paths give an error
 			f := &failer{pred: true}
 			content := s
@@ -952,7 +1019,11 @@ func genC04(r *R, n int, tier string, out *Out) {
 	}
 }
 
-func parseFileOut(path string) (po parseOut) {
+func parseFileOut(path string) parseOut {
+	return watchParse(func() parseOut { return parseFileNow(path) })
+}
+
+func parseFileNow(path string) (po parseOut) {
 	defer func() {
 		if r := recover(); r != nil {
 			po = parseOut{panicked: true, class: "other", errText: fmt.Sprint(r)}
@@ -974,13 +1045,24 @@ func parseFileOut(path string) (po parseOut) {
 // ---------- C20: one injected syntax error at a known position ----------
 
 func genC20(r *R, n int, tier string, out *Out) {
-	nl := func() string { return pickOf(r, []string{"", "", "\n", "\n\n", " \n", "\r\n", "\n\t", " "}) }
+	// between tokens: newlines, and blanks that are NOT newlines (a lone CR, VT, FF, NEL, LS, PS, other unicode.IsSpace characters) - only LF counts
+	nl := func() string {
+		if r.chance(0.12) {
+			return pickOf(r, []string{"\r", "\v", "\f", "\u0085", "\u2028", "\u2029", "\u00a0", "\u3000", "\u200a", "\r\r\n", "\u0085\n"})
+		}
+		return pickOf(r, []string{"", "", "\n", "\n\n", " \n", "\r\n", "\n\t", " "})
+	}
 	for i := 0; i < n; i++ {
 		isObj := r.chance(0.5)
 		// build a multi-line valid document token by token, remembering token boundaries
 		var toks []string
 		var build func(depth int, obj bool)
 		scalar := func() string {
+			if r.chance(0.15) {
+				// code points whose low byte (or low 16 bits) is LF, CR or another structural character, and the Unicode line separators:
+				// none of them is a newline
+				return pickOf(r, []string{"\"\u010a\"", "\"\u200a\"", "\"\u4e0a\"", "\"a\u010ab\u010a\"", "\"\u010d\u010a\"", "\"\u2028\"", "\"\u2029\u0085\"", "\"\U0001000a\"", "\"\u0122\u015c\""})
+			}
 			return pickOf(r, []string{"1", "true", "null", `"s"`, "2.5", `"a\nb"`, "-7", `"x y"`, "\"ab\ncd\"", "\"l1\nl2\nl3\"", "\"\nx\"", "\"tab\there\"", "\"a\\\nb\"", "\"\\\n\""})
 		}
 		build = func(depth int, obj bool) {
@@ -1000,6 +1082,8 @@ func genC20(r *R, n int, tier string, out *Out) {
 						key = fmt.Sprintf("\"k%d\\\nx\"", j)
 					case 2:
 						key = fmt.Sprintf(`"k%d\"q\\"`, j)
+					case 3:
+						key = fmt.Sprintf("\"k%d%s\"", j, pickOf(r, []string{"\u010a", "\u200a", "\u4e0a\u010a", "\u2028", "\u0085", "\U0001000a"}))
 					}
 					toks = append(toks, key, nl(), ":", nl())
 					if depth > 0 && r.chance(0.45) {
